@@ -118,4 +118,60 @@ def run_c19(prop, tier, seed, count, profiles):
     return res
 
 
+def cross_entry(prop, tier, seed, count, profiles, res):
+    """A sample of the property's own cases through the two other entry points (the command
+    line and the Python module): the language must mean the same at every boundary."""
+    profile = profiles[0]
+    n = 150 if tier == "quick" else 1500
+    exe, msg = D.step_harness_build(profile)
+    if not exe:
+        res["errors"].append(f"harness build failed ({profile}): {msg}")
+        return
+    cli, msg = build_repo("cmdline", profile, "jsonlogic")
+    if not cli:
+        res["errors"].append(f"building the jsonlogic command failed ({profile}): {msg}")
+    else:
+        outdir = os.path.join(D.BUILD, "cases", f"{prop}-cli-{profile}")
+        shutil.rmtree(outdir, ignore_errors=True)
+        os.makedirs(outdir)
+        rc, out = D.sh([exe, "gen", "C18", "--from", prop, "--as", prop, "--seed", str(seed), "--count", str(n), "--tier", tier,
+                        "--out", outdir, "--profile", profile], env={"JLH_CLI": cli}, timeout=3000)
+        if rc != 0:
+            res["errors"].append(f"cross-entry CLI run failed: {out[-1000:]}")
+        else:
+            finish(prop, outdir, profile + "/cli", res)
+    so, msg = build_repo("python", profile, "libjsonlogic_rs.so")
+    if not so:
+        res["errors"].append(f"building the Python extension failed ({profile}): {msg}")
+        return
+    pkg_parent = os.path.join(D.BUILD, f"pypkg-{profile}")
+    pkg = os.path.join(pkg_parent, "jsonlogic_rs")
+    shutil.rmtree(pkg_parent, ignore_errors=True)
+    os.makedirs(pkg)
+    shutil.copy(os.path.join(D.REPO, "py", "jsonlogic_rs", "__init__.py"), pkg)
+    shutil.copy(so, os.path.join(pkg, "jsonlogic.so"))
+    outdir = os.path.join(D.BUILD, "cases", f"{prop}-py-{profile}")
+    shutil.rmtree(outdir, ignore_errors=True)
+    os.makedirs(outdir)
+    base = [exe, "gen", "C19", "--from", prop, "--as", prop, "--seed", str(seed), "--count", str(n), "--tier", tier, "--out", outdir,
+            "--profile", profile]
+    rc, out = D.sh(base + ["--stage", "cases"], timeout=600)
+    if rc != 0:
+        res["errors"].append(f"cross-entry case generation failed: {out[-1000:]}")
+        return
+    rc, out = D.sh([PYTHON, os.path.join(D.VERIF, "tools", "py_driver.py"), pkg_parent,
+                    os.path.join(outdir, "py_cases.jsonl"), os.path.join(outdir, "py_results.jsonl")], timeout=3000)
+    if rc != 0:
+        res["errors"].append(f"the Python driver failed (rc={rc}): {out[-1500:]}")
+        return
+    rc, out = D.sh(base + ["--stage", "emit"], timeout=600)
+    if rc != 0:
+        res["errors"].append(f"emission failed: {out[-1000:]}")
+        return
+    finish(prop, outdir, profile + "/python", res)
+
+
+# properties of the rule language whose cases are also sampled through the CLI and Python
+CROSS_ENTRY = {"C%02d" % i for i in range(1, 17)}
+
 RUNNERS = {"C18": run_c18, "C19": run_c19}
